@@ -104,7 +104,11 @@ func (b *Base128Encoder) Encode(src []byte) []byte {
 		whichByte++
 	}
 
-	dst = append(dst, bufByte)
+	// Only a started group has pending bits to flush: after a full group of 7 bytes (or no input
+	// at all) one more symbol would make the length something Decode refuses
+	if whichByte > 1 {
+		dst = append(dst, bufByte)
+	}
 	dst = escape128(dst)
 	return dst
 }
